@@ -18,6 +18,52 @@ import z3
 INF = float('inf')
 
 
+class Q(Fraction):
+    """exact rational used in concrete replays of Real-valued families: a Fraction that absorbs
+    the (exactly representable) float constants of the code under test, e.g. `x * 1.0`, instead
+    of degrading to float, so the concrete run follows the same exact arithmetic as the terms"""
+    __slots__ = ()
+
+    @staticmethod
+    def _w(o):
+        if isinstance(o, float):
+            if o != o or o in (INF, -INF):
+                return None
+            return Fraction(o)
+        return o
+
+    def _bin(name):          # noqa
+        op = getattr(Fraction, name)
+
+        def f(self, other):
+            o = Q._w(other)
+            if o is None:
+                return getattr(float, name)(float(self), other)
+            r = op(self, o)
+            if isinstance(r, Fraction) and not isinstance(r, Q):
+                r = Q(r)
+            return r
+        f.__name__ = name
+        return f
+    for _n in ('__add__', '__radd__', '__sub__', '__rsub__', '__mul__', '__rmul__',
+               '__truediv__', '__rtruediv__'):
+        locals()[_n] = _bin(_n)
+    del _n, _bin
+
+    def __neg__(self):
+        return Q(Fraction.__neg__(self))
+
+    def __abs__(self):
+        return Q(Fraction.__abs__(self))
+
+    def __hash__(self):
+        return Fraction.__hash__(self)
+
+    def __repr__(self):
+        return str(Fraction(self))
+    __str__ = __repr__
+
+
 class Unsupported(BaseException):
     """proxy used in a way the engine cannot model; the path is poisoned"""
 
@@ -419,8 +465,9 @@ class Engine:
 
     def real(self, name, lo=None, hi=None):
         if self.concrete:
-            v = self._given(name, lo, hi)
-            return v if isinstance(v, int) else Fraction(v)
+            v = Q(self._given(name, lo, hi))
+            self.inputs[name] = v
+            return v
         return self._new(name, z3.Real(name), lo, hi)
 
     def num(self, name, lo=None, hi=None, real=False):
@@ -430,7 +477,7 @@ class Engine:
         """a number that is part of the scenario but concrete; still a proxy so that every
         dict key / heap entry of the code under test is a proxy (DESIGN 3.1)"""
         if self.concrete:
-            return c
+            return Q(c) if isinstance(c, Fraction) else c
         return SNum(_z(c))
 
     def pick(self, name, n):
